@@ -31,6 +31,7 @@ RULE += " Round 7: a multi-file reader wrapped as an array by a second reader wi
 RULE += ' Round 8: sample axes of 2**53 .. 2**62 (interval arithmetic only); with_overlap as bool / int / NumPy bool, by keyword or position; a compressed file with a damaged chunk (the pass may raise; if it returns, it must tile).'
 RULE += ' Round 9: compressed files whose chunks have unequal lengths.'
 RULE += ' Round 10: part files without a complete row (zero samples: in the middle, at the end, twice in a row); n_channels_dat together with another n_channels; arrays of shape (n, 0).'
+RULE += ' Round 11: get_excerpts on 2-D and 3-D data (the same rows as for 1-D data).'
 EXHAUSTIVE = {'quick': True, 'thorough': True}
 EXHAUSTIVE_SCOPE = {'quick': 'n <= 25 (see rule)', 'thorough': 'n <= 40 (see rule)'}
 FLOORS = {'quick': {'evaluations': 20000, 'distinct_nontrivial': 2000,
